@@ -17,7 +17,7 @@ import random as _random
 from harness.common.framework import Prop, CaseTimeout
 from harness import c11_geno as G
 
-ENUM_CAP = {'quick': 250, 'thorough': 1200}
+ENUM_CAP = {'quick': 250, 'thorough': 600}
 SWEEP_CAP = 80
 
 
@@ -202,8 +202,8 @@ class C11(Prop):
 
   def generate(self, rng, tier):
     cap = ENUM_CAP[tier]
-    n_rand = 240 if tier == 'quick' else 5000
-    n_inf = 90 if tier == 'quick' else 2000
+    n_rand = 240 if tier == 'quick' else 2000
+    n_inf = 90 if tier == 'quick' else 700
     for _ in range(n_rand):
       yield self.make_case(G.gen_spec(rng, False, cap), rng, cap=cap)
     for _ in range(n_inf):
@@ -214,17 +214,17 @@ class C11(Prop):
         spec = G.gen_spec(rng, True, cap)
       yield self.make_case(spec, rng, cap=cap)
     # the exhaustive depth-1 family (and a slice of depth 2 built on top of it)
-    fam = [p for p in G.family_points() if G.size_bound(p) <= cap]
+    fam = list(G.family_points())
     if tier == 'quick':
       small = [p for p in fam if G.size_bound(p) <= 64]
       picked = rng.sample(small, 200)
     else:
-      picked = fam
+      picked = fam      # all 3012; fully enumerated when the size bound is <= cap (1844 of them)
     for p in picked:
       yield self.make_case(p, rng, n_members=2, n_corrupt=6, n_random=1, cap=cap)
     # spaces of two family points, family points as conditional candidates (depth 2)
     pool = [p for p in G.family_points(max_n=3, max_k=2) if G.size_bound(p) <= 12]
-    n2 = 60 if tier == 'quick' else 3000
+    n2 = 60 if tier == 'quick' else 1500
     for _ in range(n2):
       a, b = rng.choice(pool), rng.choice(pool)
       if rng.chance(0.5):
